@@ -22,7 +22,7 @@ import common  # noqa: E402
 
 THEOREMS = {
     "C04": ["C04_state_step_refines_rfc", "C04_state_nothing_after_end_stream", "C04_state_send_closed_forever",
-            "C04_state_nothing_after_reset", "C04_state_closed_cause_forever",
+            "C04_state_nothing_after_reset", "C04_state_closed_cause_forever", "C04_state_scheduled_cause_forever",
             "C04_state_only_send_open_starts_streaming", "C04_state_idle_is_silent", "C04_state_leaving_idle",
             "C04_state_streaming_is_rfc_sendable", "C04_state_nonvacuous"],
     "C09": ["C09_state_error_is_rfc_forbidden", "C09_state_rfc_permitted_is_accepted", "C09_state_recv_open_refines",
@@ -32,7 +32,7 @@ THEOREMS = {
             "C09_state_local_reset_is_flagged", "C09_state_nonvacuous"],
     "C17": ["C17_state_recv_reset_surfaces", "C17_state_handle_error_surfaces", "C17_state_go_away_surfaces",
             "C17_state_recv_eof_surfaces", "C17_state_set_reset_surfaces", "C17_state_scheduled_reset_surfaces",
-            "C17_state_error_persists", "C17_state_first_error_wins", "C17_state_nonvacuous"],
+            "C17_state_error_persists", "C17_state_first_error_wins", "C17_state_scheduled_reset_gives_way", "C17_state_nonvacuous"],
     "C07": ["C07_state_connection_end_closes_forever", "C07_state_closed_forever", "C07_state_closed_never_pending",
             "C07_state_completed_message_after_connection_end", "C07_state_fix_needed",
             "C07_state_recv_reset_keeps_end_stream",
@@ -576,7 +576,8 @@ def oracle_transition(line):
             V("C04", "RST_STREAM received but the stream is not closed")
         if a == "idle":
             dev.append(("C09", "recv_reset accepted on an Idle record"))
-        if f[0] != "Closed" or o["queued"]:
+        unsent = f[0] == "Closed" and f[1][0] == "ScheduledLibraryReset"     # a reset never written is not a first cause
+        if f[0] != "Closed" or o["queued"] or unsent:
             e = ("Reset", o["sid"], o["reason"], "Remote")
             want = ("Closed", ("ErrorAfterEndStream" if recv_ended(f) else "Error", e))
             if t != want:
@@ -588,7 +589,10 @@ def oracle_transition(line):
     elif m in ("handle_error", "recv_eof"):
         if t[0] != "Closed":
             V("C07", "%s left the stream in %s" % (m, line["state"]))
-        if f[0] == "Closed":
+        if f[0] == "Closed" and f[1][0] == "ScheduledLibraryReset" and m == "handle_error":
+            if t[0] != "Closed" or t[1][0] != "Error":
+                V("C17", "handle_error on a stream whose reset was only scheduled did not record the connection error")
+        elif f[0] == "Closed":
             if t != f:
                 V("C17", "%s replaced the cause of a closed stream" % m)
                 V("C07", "%s replaced the cause of a closed stream" % m)
